@@ -270,6 +270,15 @@ impl Check for ListLaws {
             want(&sess, "index:last", cls, "l[-1]", &l[len - 1])?;
         }
         want(&sess, "index:beyond", cls, "l[len(l)]", &MV::Null)?;
+        // includes on lists is membership under .== (as unique and the dot operators use it)
+        if len > 0 {
+            let j = (c.i.unsigned_abs() as usize) % len;
+            sess.bind("j", &num(j as f64));
+            want(&sess, "includes:member", cls, "includes(l, l[j])", &MV::Bool(true))?;
+            want(&sess, "includes:member-copy", cls, "includes([...l], [...l, 0][j])", &MV::Bool(true))?;
+        }
+        want(&sess, "includes:absent", cls, "includes(l, \"\\u{0}not a member\")", &MV::Bool(false))?;
+        want(&sess, "includes:agrees-with-some", cls, "includes(l, m[0]) == some(l, x => x .== m[0])", &MV::Bool(true))?;
         want(&sess, "index:minus-len", cls, "l[0 - len(l)]", &if len > 0 { l[0].clone() } else { MV::Null })?;
         want(&sess, "index:below-minus-len", cls, "l[0 - len(l) - 1]", &MV::Null)?;
         if len > 1 {
@@ -356,6 +365,11 @@ impl Check for StrLaws {
             want(&sess, "split-join", cls, "join(split(s, d), d)", &s(&c.s))?;
             let parts: Vec<MV> = c.s.split(c.d.as_str()).map(s).collect();
             want(&sess, "split", cls, "split(s, d)", &MV::List(parts))?;
+        }
+        // includes on strings is substring search over the same characters
+        want(&sess, "strfn:includes", cls, "includes(s, d)", &MV::Bool(c.s.contains(c.d.as_str())))?;
+        if b <= n {
+            want(&sess, "strfn:includes-own-slice", cls, "includes(s, slice(s, a, b))", &MV::Bool(true))?;
         }
         want(&sess, "join-chars", cls, "join([...s], \"\")", &s(&c.s))?;
         want(&sess, "spread:call-string", cls, "((...r) => r)(...s)", &MV::List(cs))?;
